@@ -163,6 +163,7 @@ type vfGW struct {
 	deliv   []vfDelivery        // deliveries during the current step
 	lastPts []vfChoicePoint
 	lpubErr map[string]string
+	localID map[string]string // message ID of a locally published message -> its label
 }
 
 type vfMemTracer struct {
@@ -190,7 +191,7 @@ func vfDefaultMsgs(topics []string) map[string]vfMsgSpec {
 func newVfGW(x *vfExec, cfg *vfGWCfg, msgs map[string]vfMsgSpec, extra ...Option) *vfGW {
 	g := &vfGW{x: x, cfg: cfg, w: newVfWorld(), fakes: map[string]*vfFake{}, pcfg: map[string]vfPeerCfg{}, conn: map[string]bool{},
 		gated: map[string]bool{}, app: map[peer.ID]float64{}, topics: map[string]*Topic{}, subs: map[string][]*Subscription{},
-		relays: map[string][]RelayCancelFunc{}, msgs: msgs, t0: time.Now(), wire: map[string][]vfRecv{}, lpubErr: map[string]string{}}
+		relays: map[string][]RelayCancelFunc{}, msgs: msgs, t0: time.Now(), wire: map[string][]vfRecv{}, lpubErr: map[string]string{}, localID: map[string]string{}}
 	opts := []Option{WithMessageSignaturePolicy(StrictNoSign)}
 	if cfg.QueueSize > 0 {
 		opts = append(opts, WithPeerOutboundQueueSize(cfg.QueueSize))
@@ -322,7 +323,9 @@ func (g *vfGW) msgLabel(m *pb.Message) string {
 		}
 	}
 	if peer.ID(m.GetFrom()) == g.n.id() {
-		return "local:" + strings.TrimRight(string(m.GetData()), "\x00")
+		l := "local:" + strings.TrimRight(string(m.GetData()), "\x00")
+		g.localID[id] = l
+		return l
 	}
 	return "?" + vfIDName(id)
 }
@@ -332,6 +335,9 @@ func (g *vfGW) idLabel(id string) string {
 		if g.msgID(k) == id {
 			return k
 		}
+	}
+	if l, ok := g.localID[id]; ok {
+		return l
 	}
 	return vfIDName(id)
 }
@@ -481,6 +487,16 @@ func (g *vfGW) apply(evFull string) {
 		if err != nil {
 			g.lpubErr[arg(2)] = err.Error()
 		}
+		synctest.Wait()
+		if g.n.gs != nil {
+			g.n.eval(func() {
+				for id, m := range g.n.gs.mcache.msgs {
+					if peer.ID(m.GetFrom()) == g.n.id() {
+						g.localID[id] = "local:" + strings.TrimRight(string(m.GetData()), "\x00")
+					}
+				}
+			})
+		}
 	case "hb":
 		hbI := time.Second
 		if g.n.gs != nil {
@@ -551,6 +567,7 @@ type vfSnap struct {
 	PeerDW   map[string]int
 	Blacklst map[string]bool
 	Promises map[string][]string
+	PromExp  map[string]time.Duration // "peer|msg" -> remaining time of the promise
 	OK       bool
 }
 
@@ -567,7 +584,7 @@ func (g *vfGW) snap() *vfSnap {
 		Fanout: map[string]map[string]bool{}, LastPub: map[string]time.Duration{}, Backoff: map[string]map[string]time.Duration{},
 		Direct: map[string]bool{}, Outbound: map[string]bool{}, Score: map[string]float64{}, Penalty: map[string]float64{}, Invalid: map[string]float64{},
 		MySubs: map[string]int{}, MyRelays: map[string]int{}, Unwanted: map[string]map[string]int{}, Control: map[string]string{}, Gossip: map[string]int{},
-		PeerHave: map[string]int{}, IAsked: map[string]int{}, PeerDW: map[string]int{}, Blacklst: map[string]bool{}, Promises: map[string][]string{}}
+		PeerHave: map[string]int{}, IAsked: map[string]int{}, PeerDW: map[string]int{}, Blacklst: map[string]bool{}, Promises: map[string][]string{}, PromExp: map[string]time.Duration{}}
 	s.OK = g.n.eval(func() {
 		p := g.n.ps
 		now := time.Now()
@@ -663,8 +680,9 @@ func (g *vfGW) snap() *vfSnap {
 		if gs.gossipTracer != nil {
 			gs.gossipTracer.Lock()
 			for mid, m := range gs.gossipTracer.promises {
-				for pid := range m {
+				for pid, exp := range m {
 					s.Promises[vfName(pid)] = append(s.Promises[vfName(pid)], g.idLabel(mid))
+					s.PromExp[vfName(pid)+"|"+g.idLabel(mid)] = exp.Sub(now)
 				}
 			}
 			gs.gossipTracer.Unlock()
